@@ -1,14 +1,24 @@
-// selftest.go: the translator's self-test.  Three seeded discipline violations, each applied (as a go/packages
+// selftest.go: the translator's self-test.  Seeded discipline violations, each applied (as a go/packages
 // overlay; the mutated copy is also written under the self-test directory for inspection) to the first file of its
 // candidate list on which the syntactic rewrite applies:
 //
-//	1 moved-out     an Unlock() is moved up to directly after its Lock(): the accesses between them leave the section
-//	2 wrong-lock    a second mutex is added to a struct and one method locks that one instead
-//	3 late-write    the field assignment before a close(ch) is repeated after it: a write after publication
+//	1 moved-out         an Unlock() is moved up to directly after its Lock(): the accesses between them leave the section
+//	2 wrong-lock        a second mutex is added to a struct and one method locks that one instead
+//	3 late-write        the field assignment before a close(ch) is repeated after it: a write after publication
+//
+// and the racy twins of the three idioms the translator recognises semantically (each looks like the accepted form):
+//
+//	4 closure-to-go     the callback of a Broadcast.HoldLock is bound to a local variable (accepted: it runs inline) and
+//	                    the HoldLock call is then made by a `go` statement: the closure's captured variables are shared
+//	5 write-after-escape  a constructor hands its fresh object to a goroutine and writes one of its fields afterwards:
+//	                    the write is no longer in the construction phase
+//	6 write-after-cas   the outcome of the compare-and-swap that publishes a fresh node is kept in a variable and a
+//	                    field of the node is written when it succeeded: a write after publication
 //
 // The rewrites are on the syntax tree, not on text, so that harmless edits of /repo do not invalidate them.
-// Output: <dir>/SelfTables.v (Definition seed1 seed2 seed3 : table) and <dir>/selftest.json.  ./check then proves
-// check_table seedN = false in Coq for each N; a translator that accepts one of them makes the check report itself broken.
+// Output: <dir>/SelfTables.v (Definition seed1 .. seedN : table) and <dir>/selftest.json (N results, in that order).
+// ./check then proves check_table seedK = false in Coq for each K; a translator that accepts one of them makes the check
+// report itself broken.
 package main
 
 import (
@@ -22,6 +32,8 @@ import (
 	"os"
 	"path/filepath"
 	"strings"
+
+	"golang.org/x/tools/go/ast/astutil"
 )
 
 type seed struct {
@@ -190,10 +202,291 @@ func seedLateWrite(f *ast.File) (string, bool) {
 	return done, done != ""
 }
 
+// ---- 4: closure-to-go
+
+// names assigned (=) in the body of fl that fl neither declares nor takes as a parameter
+func assignsOuter(fl *ast.FuncLit) bool {
+	own := map[string]bool{}
+	if fl.Type.Params != nil {
+		for _, f := range fl.Type.Params.List {
+			for _, n := range f.Names {
+				own[n.Name] = true
+			}
+		}
+	}
+	ast.Inspect(fl.Body, func(n ast.Node) bool {
+		switch x := n.(type) {
+		case *ast.AssignStmt:
+			if x.Tok == token.DEFINE {
+				for _, l := range x.Lhs {
+					if id, ok := l.(*ast.Ident); ok {
+						own[id.Name] = true
+					}
+				}
+			}
+		case *ast.ValueSpec:
+			for _, n := range x.Names {
+				own[n.Name] = true
+			}
+		}
+		return true
+	})
+	found := false
+	ast.Inspect(fl.Body, func(n ast.Node) bool {
+		if as, ok := n.(*ast.AssignStmt); ok && as.Tok == token.ASSIGN {
+			for _, l := range as.Lhs {
+				if id, ok := l.(*ast.Ident); ok && id.Name != "_" && !own[id.Name] {
+					found = true
+				}
+			}
+		}
+		return !found
+	})
+	return found
+}
+
+// the statement lists of a function body (blocks, case and select clauses), each with a setter
+func stmtLists(body *ast.BlockStmt, visit func(list []ast.Stmt, set func([]ast.Stmt)) bool) {
+	stop := false
+	ast.Inspect(body, func(n ast.Node) bool {
+		if stop {
+			return false
+		}
+		switch x := n.(type) {
+		case *ast.BlockStmt:
+			stop = visit(x.List, func(l []ast.Stmt) { x.List = l })
+		case *ast.CaseClause:
+			stop = visit(x.Body, func(l []ast.Stmt) { x.Body = l })
+		case *ast.CommClause:
+			stop = visit(x.Body, func(l []ast.Stmt) { x.Body = l })
+		}
+		return !stop
+	})
+}
+
+func seedClosureToGo(f *ast.File) (string, bool) {
+	done := ""
+	for _, d := range f.Decls {
+		fd, ok := d.(*ast.FuncDecl)
+		if !ok || fd.Body == nil || done != "" {
+			continue
+		}
+		// closures bound to local variables of this function
+		bound := map[string]*ast.FuncLit{}
+		ast.Inspect(fd.Body, func(n ast.Node) bool {
+			if as, ok := n.(*ast.AssignStmt); ok && len(as.Lhs) == len(as.Rhs) {
+				for i, l := range as.Lhs {
+					if id, ok := l.(*ast.Ident); ok {
+						if fl, ok := as.Rhs[i].(*ast.FuncLit); ok {
+							bound[id.Name] = fl
+						}
+					}
+				}
+			}
+			return true
+		})
+		stmtLists(fd.Body, func(list []ast.Stmt, set func([]ast.Stmt)) bool {
+			for i, s := range list {
+				es, ok := s.(*ast.ExprStmt)
+				if !ok {
+					continue
+				}
+				c, ok := es.X.(*ast.CallExpr)
+				if !ok || len(c.Args) != 1 {
+					continue
+				}
+				se, ok := c.Fun.(*ast.SelectorExpr)
+				if !ok || se.Sel.Name != "HoldLock" {
+					continue
+				}
+				switch a := c.Args[0].(type) {
+				case *ast.FuncLit:
+					if !assignsOuter(a) {
+						continue
+					}
+					bind := &ast.AssignStmt{Lhs: []ast.Expr{ast.NewIdent("seedCb")}, Tok: token.DEFINE, Rhs: []ast.Expr{a}}
+					c.Args[0] = ast.NewIdent("seedCb")
+					nl := append([]ast.Stmt{}, list[:i]...)
+					nl = append(nl, bind, &ast.GoStmt{Call: c})
+					nl = append(nl, list[i+1:]...)
+					set(nl)
+					done = fmt.Sprintf("func %s: the callback of %s.HoldLock is bound to a local variable and the call is made by a go statement", fd.Name.Name, exprString(se.X))
+					return true
+				case *ast.Ident:
+					if fl := bound[a.Name]; fl == nil || !assignsOuter(fl) {
+						continue
+					}
+					nl := append([]ast.Stmt{}, list...)
+					nl[i] = &ast.GoStmt{Call: c}
+					set(nl)
+					done = fmt.Sprintf("func %s: %s.HoldLock(%s) is made by a go statement", fd.Name.Name, exprString(se.X), a.Name)
+					return true
+				}
+			}
+			return false
+		})
+	}
+	return done, done != ""
+}
+
+// ---- 5: write-after-escape
+
+func seedWriteAfterEscape(f *ast.File) (string, bool) {
+	for _, d := range f.Decls {
+		fd, ok := d.(*ast.FuncDecl)
+		if !ok || fd.Body == nil || len(fd.Body.List) < 2 {
+			continue
+		}
+		l := fd.Body.List
+		rs, ok := l[len(l)-1].(*ast.ReturnStmt)
+		if !ok || len(rs.Results) != 1 {
+			continue
+		}
+		id, ok := rs.Results[0].(*ast.Ident)
+		if !ok {
+			continue
+		}
+		field := ""
+		for _, s := range l[:len(l)-1] {
+			as, ok := s.(*ast.AssignStmt)
+			if !ok {
+				continue
+			}
+			if as.Tok == token.DEFINE && len(as.Lhs) == 1 && len(as.Rhs) == 1 {
+				if lid, ok := as.Lhs[0].(*ast.Ident); ok && lid.Name == id.Name && field == "" {
+					rhs := as.Rhs[0]
+					if u, ok := rhs.(*ast.UnaryExpr); ok && u.Op == token.AND {
+						rhs = u.X
+					}
+					if cl, ok := rhs.(*ast.CompositeLit); ok {
+						for _, el := range cl.Elts {
+							if kv, ok := el.(*ast.KeyValueExpr); ok {
+								if k, ok := kv.Key.(*ast.Ident); ok {
+									field = k.Name
+									break
+								}
+							}
+						}
+					}
+				}
+			}
+			if as.Tok == token.ASSIGN && field == "" {
+				for _, lh := range as.Lhs {
+					if se, ok := lh.(*ast.SelectorExpr); ok {
+						if x, ok := se.X.(*ast.Ident); ok && x.Name == id.Name {
+							field = se.Sel.Name
+							break
+						}
+					}
+				}
+			}
+		}
+		if field == "" {
+			continue
+		}
+		sel := func() ast.Expr { return &ast.SelectorExpr{X: ast.NewIdent(id.Name), Sel: ast.NewIdent(field)} }
+		leak := &ast.GoStmt{Call: &ast.CallExpr{Fun: &ast.FuncLit{Type: &ast.FuncType{Params: &ast.FieldList{}}, Body: &ast.BlockStmt{List: []ast.Stmt{
+			&ast.AssignStmt{Lhs: []ast.Expr{ast.NewIdent("_")}, Tok: token.ASSIGN, Rhs: []ast.Expr{sel()}},
+		}}}}}
+		write := &ast.AssignStmt{Lhs: []ast.Expr{sel()}, Tok: token.ASSIGN, Rhs: []ast.Expr{sel()}}
+		nl := append([]ast.Stmt{}, l[:len(l)-1]...)
+		nl = append(nl, leak, write, rs)
+		fd.Body.List = nl
+		return fmt.Sprintf("func %s: before `return %s`, a goroutine that reads %s.%s is started and %s.%s is written again", fd.Name.Name, id.Name, id.Name, field, id.Name, field), true
+	}
+	return "", false
+}
+
+// ---- 6: write-after-cas
+
+func seedWriteAfterCAS(f *ast.File) (string, bool) {
+	for _, d := range f.Decls {
+		fd, ok := d.(*ast.FuncDecl)
+		if !ok || fd.Body == nil {
+			continue
+		}
+		// n.f = e somewhere in the function
+		fields := map[string]string{}
+		ast.Inspect(fd.Body, func(n ast.Node) bool {
+			if as, ok := n.(*ast.AssignStmt); ok && as.Tok == token.ASSIGN {
+				for _, lh := range as.Lhs {
+					if se, ok := lh.(*ast.SelectorExpr); ok {
+						if x, ok := se.X.(*ast.Ident); ok && fields[x.Name] == "" {
+							fields[x.Name] = se.Sel.Name
+						}
+					}
+				}
+			}
+			return true
+		})
+		done := ""
+		stmtLists(fd.Body, func(list []ast.Stmt, set func([]ast.Stmt)) bool {
+			for i, s := range list {
+				var host ast.Node // the part of the statement that is evaluated exactly once, before anything else of it
+				switch x := s.(type) {
+				case *ast.IfStmt:
+					if x.Init == nil {
+						host = x.Cond
+					}
+				case *ast.ReturnStmt, *ast.ExprStmt, *ast.AssignStmt:
+					host = x
+				}
+				if host == nil {
+					continue
+				}
+				var cas *ast.CallExpr
+				var node, field string
+				ast.Inspect(host, func(n ast.Node) bool {
+					if _, isLit := n.(*ast.FuncLit); isLit {
+						return false
+					}
+					if c, ok := n.(*ast.CallExpr); ok && cas == nil && len(c.Args) == 2 {
+						if se, ok := c.Fun.(*ast.SelectorExpr); ok && se.Sel.Name == "CompareAndSwap" {
+							if id, ok := c.Args[1].(*ast.Ident); ok && fields[id.Name] != "" {
+								cas, node, field = c, id.Name, fields[id.Name]
+							}
+						}
+					}
+					return cas == nil
+				})
+				if cas == nil {
+					continue
+				}
+				astutil.Apply(s, func(c *astutil.Cursor) bool {
+					if c.Node() == ast.Node(cas) {
+						c.Replace(ast.NewIdent("seedSwapped"))
+						return false
+					}
+					return true
+				}, nil)
+				sel := func() ast.Expr { return &ast.SelectorExpr{X: ast.NewIdent(node), Sel: ast.NewIdent(field)} }
+				hoist := &ast.AssignStmt{Lhs: []ast.Expr{ast.NewIdent("seedSwapped")}, Tok: token.DEFINE, Rhs: []ast.Expr{cas}}
+				late := &ast.IfStmt{Cond: ast.NewIdent("seedSwapped"), Body: &ast.BlockStmt{List: []ast.Stmt{
+					&ast.AssignStmt{Lhs: []ast.Expr{sel()}, Tok: token.ASSIGN, Rhs: []ast.Expr{sel()}},
+				}}}
+				nl := append([]ast.Stmt{}, list[:i]...)
+				nl = append(nl, hoist, late, s)
+				nl = append(nl, list[i+1:]...)
+				set(nl)
+				done = fmt.Sprintf("func %s: seedSwapped := %s; if seedSwapped { %s.%s = %s.%s }", fd.Name.Name, exprString(cas), node, field, node, field)
+				return true
+			}
+			return false
+		})
+		if done != "" {
+			return done, true
+		}
+	}
+	return "", false
+}
+
 var seeds = []seed{
 	{"moved-out", "an access moved out of its critical section", []string{"linkedlist/linkedlist.go", "iocloser/read-closer.go", "keyed/keyed-refcount.go", "refcount/refcount.go"}, seedMovedOut},
 	{"wrong-lock", "a method that takes a different lock than the other accessors", []string{"iocloser/write-closer.go", "iocloser/read-closer.go", "keyed/keyed-refcount.go", "promise/once.go"}, seedWrongLock},
 	{"late-write", "a write after publication (after close)", []string{"promise/promise.go"}, seedLateWrite},
+	{"closure-to-go", "a lock callback bound to a local variable whose HoldLock call is made by a go statement", []string{"broadcast/broadcast.go", "ccontainer/ccontainer.go", "routine/state.go", "conc/queue.go", "promise/container.go"}, seedClosureToGo},
+	{"write-after-escape", "a field of a fresh object written after the object was handed to a goroutine", []string{"promise/promise.go", "promise/container.go", "keyed/keyed-refcount.go", "linkedlist/linkedlist.go", "conc/queue.go", "refcount/refcount.go"}, seedWriteAfterEscape},
+	{"write-after-cas", "a field of a fresh node written after the compare-and-swap that published it succeeded", []string{"cqueue/lifo.go"}, seedWriteAfterCAS},
 }
 
 type seedResult struct {
@@ -211,7 +504,7 @@ func selfTest(repo, dir string) error {
 		return err
 	}
 	var coq strings.Builder
-	coq.WriteString("(* GENERATED by /verif/lockscan -selftest: the tables of three seeded discipline violations.  Do not edit. *)\n")
+	coq.WriteString("(* GENERATED by /verif/lockscan -selftest: the tables of the seeded discipline violations.  Do not edit. *)\n")
 	coq.WriteString("From Coq Require Import String List.\nFrom Util Require Import Lockset.Check.\nImport ListNotations.\nOpen Scope string_scope.\n\n")
 	var results []seedResult
 	for i, sd := range seeds {
